@@ -219,6 +219,10 @@ def period(value: object) -> t.Period:
         if unit_weight(period.unit) > unit_weight(unit):
             raise PeriodError(str(value))
 
+        # Weeks weigh as much as months, but a month does not name a week
+        if unit == DateUnit.WEEK and period.unit == DateUnit.MONTH:
+            raise PeriodError(str(value))
+
         return Period((unit, period.start, size))
 
     raise PeriodError(str(value))
